@@ -159,6 +159,13 @@ func c15Sessions(r *mon.Run) []C15Session {
 		}
 		s.Actions = append(s.Actions, C15Action{Kind: "cli-user-new", Text: "Alice Host", Text2: "alice@example.com"},
 			C15Action{Kind: "cli-bug-new", Text: c15Titles[rng.Intn(len(c15Titles))], Text2: c15Texts[rng.Intn(len(c15Texts))]})
+		// one commit whose operations each carry different attachments (the blobs of all of them have to be
+		// referenced from that commit's tree)
+		s.Actions = append(s.Actions, C15Action{Kind: "lib-edit", Bug: 0, Specs: []world.OpSpec{
+			{Kind: "comment", Text: c15Texts[0], Files: []string{c15Files[0] + "m1", c15Files[1%len(c15Files)] + "m2"}},
+			{Kind: "comment", Text: c15Texts[1%len(c15Texts)], Files: []string{c15Files[2%len(c15Files)] + "m3"}},
+			{Kind: "editcreate", Text: c15Texts[0], Files: []string{c15Files[0] + "m4", c15Files[0] + "m1"}},
+		}})
 		for len(s.Actions) < nAct {
 			x := rng.Intn(total)
 			kind := ""
